@@ -4,6 +4,7 @@ usage: tools/reeval_seeded.py <nslots> [first_slot] [--only Cxx,...]
 Each change is run against its own property's check plus every check that caught it before (tools/seeded_eval_iso.py,
 --no-suite: the suite comparison was done when the change was first confirmed). Logs: /tmp/se/reeval-<id>.log."""
 import json
+import os
 import subprocess
 import sys
 import threading
@@ -39,8 +40,17 @@ def main():
                     return
                 name, checks = todo.pop(0)
             log = open(f"/tmp/se/reeval-{name}.log", "w")
-            subprocess.run(["python3", str(V / "tools" / "seeded_eval_iso.py"), str(slot), f"seeded/{name}"] + checks + ["--no-suite"],
-                           cwd=V, stdout=log, stderr=subprocess.STDOUT)
+            env = dict(os.environ, VERIF_NPROC=os.environ.get("VERIF_NPROC", "5"), VERIF_ESCALATE_S="60")
+            # the property's own check first; the checks that caught the change before are only consulted if that one misses
+            subprocess.run(["python3", str(V / "tools" / "seeded_eval_iso.py"), str(slot), f"seeded/{name}", checks[0], "--no-suite"],
+                           cwd=V, stdout=log, stderr=subprocess.STDOUT, env=env)
+            try:
+                caught = json.loads((V / "seeded" / name / "meta.json").read_text()).get("caught_by")
+            except Exception:
+                caught = None
+            if not caught and len(checks) > 1:
+                subprocess.run(["python3", str(V / "tools" / "seeded_eval_iso.py"), str(slot), f"seeded/{name}"] + checks + ["--no-suite"],
+                               cwd=V, stdout=log, stderr=subprocess.STDOUT, env=env)
             log.close()
             last = open(f"/tmp/se/reeval-{name}.log").read().strip().splitlines()[-1:]
             print(name, last, flush=True)
